@@ -189,6 +189,31 @@ func c16StoryScenarios(tier string) []*Scenario {
 		add("bulkhead-wait-cancelled", []Spec{bw}, []ExeSpec{{Script: ok, Ctx: src, CancelAt: 30}, {Script: ok}}, refusals)
 		add("limiter-wait-cancelled", []Spec{lw}, []ExeSpec{{Script: ok, Ctx: src, CancelAt: 30}, {Script: ok, StartAt: 5}}, refusals)
 	}
+	// a handle predicate that is legal but not pure (true on its 1st, 3rd, ... call): whatever it answers,
+	// the fallback's OnFailure, the fallback function and OnFallbackExecuted go together
+	{
+		calls := 0
+		impure := Cond{K: "if:alternating", F: func(int, error) bool { calls++; return calls%2 == 1 }}
+		st := []Spec{{Kind: KFallback, FbV: 9, Handle: []Cond{impure}}}
+		for _, sc := range [][]Out{{{Err: E1}}, {{V: 1}}} {
+			out = append(out, &Scenario{
+				Name:  fmt.Sprintf("C16/story/fallback-impure-predicate [%s] %s", stackStr(st), scriptStr(sc)),
+				Bound: bound, Reduce: true,
+				Body: multiBody(st, []ExeSpec{{Script: sc}, {Script: sc, StartAt: 10}}, MultiOpts{Reduce: true, Setup: func(*Env) { calls = 0 }, Final: func(env *Env) string {
+					cnt := map[string]int{}
+					for _, e := range env.Events {
+						if e.Policy == 0 {
+							cnt[e.Name]++
+						}
+					}
+					if cnt["failure"] != cnt["fallback"] || cnt["failure"] != cnt["fbcall"] || cnt["failure"]+cnt["success"] != 2 {
+						return fmt.Sprintf("fallback over two executions: OnFailure x%d OnSuccess x%d, fallback function x%d, OnFallbackExecuted x%d", cnt["failure"], cnt["success"], cnt["fbcall"], cnt["fallback"])
+					}
+					return ""
+				}}),
+			})
+		}
+	}
 	add("bulkhead-wait-async-cancelled", []Spec{bw}, []ExeSpec{{Script: ok, Async: true, CancelAsync: true, CancelAt: 30}}, refusals)
 	add("bulkhead-wait-timeout", []Spec{{Kind: KTimeout, Limit: 30}, bw}, []ExeSpec{{Script: ok}}, func(env *Env) string {
 		n := 0
